@@ -70,6 +70,24 @@ Proof.
          end.
 Qed.
 
+Lemma hclose_done st id c fullfrag st' :
+  doneJ c -> hclose st id c fullfrag = Some st' -> Post st st' id.
+Proof.
+  intros D H. unfold hclose in H.
+    destruct (f_err c).
+    { apply Some_inj in H; subst st'. apply post_commit; dj. }
+    destruct (f_state c).
+    + apply Some_inj in H; subst st'. apply post_commit; dj.
+    + destruct (negb fullfrag).
+      * apply Some_inj in H; subst st'. apply post_commit; dj.
+      * destruct (negb (f_cur (upd_f c FWaiting false (f_cur c) (f_first c)))); [discriminate|].
+        apply Some_inj in H; subst st'. apply post_flush1; dj.
+    + destruct (negb (f_cur c)); [discriminate|].
+      apply Some_inj in H; subst st'. apply post_flush1; dj.
+    + apply Some_inj in H; subst st'. apply post_commit; dj.
+    + apply Some_inj in H; subst st'. apply post_commit; dj.
+Qed.
+
 Lemma hstep_done st id c l st' :
   get id (calls st) = Some c -> doneJ c -> hstep st id c l = Some st' -> Post st st' id.
 Proof.
@@ -105,18 +123,7 @@ Proof.
       apply Some_inj in H; subst st'. apply post_commit; dj.
     + apply Some_inj in H; subst st'. apply post_commit; dj.
   - (* HClose *)
-    destruct (f_err c).
-    { apply Some_inj in H; subst st'. apply post_commit; dj. }
-    destruct (f_state c).
-    + apply Some_inj in H; subst st'. apply post_commit; dj.
-    + destruct (negb fullfrag).
-      * apply Some_inj in H; subst st'. apply post_commit; dj.
-      * destruct (negb (f_cur (upd_f c FWaiting false (f_cur c) (f_first c)))); [discriminate|].
-        apply Some_inj in H; subst st'. apply post_flush1; dj.
-    + destruct (negb (f_cur c)); [discriminate|].
-      apply Some_inj in H; subst st'. apply post_flush1; dj.
-    + apply Some_inj in H; subst st'. apply post_commit; dj.
-    + apply Some_inj in H; subst st'. apply post_commit; dj.
+    eapply hclose_done; eassumption.
   - (* HDone *)
     destruct (done_sending c) as [c1 chk] eqn:Ds. apply done_sending_spec in Ds.
     apply Some_inj in H; subst st'. apply post_commit; dj.
@@ -144,6 +151,10 @@ Proof.
   - (* HBlackhole *)
     apply Some_inj in H; subst st'. apply post_commit.
     eapply doneJ_wsame; [apply wsame_cancel | exact D].
+  - (* HHelperWrite *)
+    rewrite helper_closes_eq in H. destruct ok.
+    + eapply hclose_done; eassumption.
+    + apply Some_inj in H; subst st'. apply post_commit; dj.
 Qed.
 
 (* ---- every step keeps a done call done, and adds at most one error frame for its id ---------- *)
